@@ -36,6 +36,11 @@ CLAIMED.update({
         note="Trusted: Lean kernel; hand model validated by correspondence (exact Fraction(float) = Rat inside the float envelope: depth <= 40, totals < 2^12); which taxa a record holds after add_imported_taxa is compared with the model on every pipeline but is not yet a theorem.",
         technique="Lean 4 proofs (loop characterisation, closed form over Rat, refinement of a memoised state machine to the pure function by invariant over operation sequences) + differential correspondence incl. call histories",
         ref="DESIGN.md §5 C07"),
+    "C17": dict(
+        text="Proof: get_markdown is modelled as a structured report (buckets in first-appearance order, stable-sorted sections, rows, summary log); theorems C17_membership (listed programs = selected non-hidden, each once), C17_bucket + C17_bucket_contains (heading = cost_bucket(cost) and its interval contains the cost), C17_order (sorted inside each heading), C17_rows (rows = non-hidden taxa of the record with their spans / _imported_ and the assessed taxon cost), C17_total (stated cost = sum over ALL taxa), C17_summary (after any number of run_pipeline calls every announced count is the size of the selection then; model mirrors fix 248e606), C17_stdout. The real Markdown is parsed back into that structure and compared.",
+        note="Partial on one clause: non-decreasing cost ACROSS headings is exercised only (needs monotonicity of cost_bucket, not yet proved). Trusted: Lean kernel; hand model validated by correspondence; the harness's Markdown parser; math.log2 compared on a grid (float corner cases near 2^k, k >= 12, outside the envelope); rendering (slugs, gutter, wrapping) outside the model.",
+        technique="Lean 4 proofs about a structured-report model (permutation/sortedness/invariant over the result log) + differential correspondence by parsing the real Markdown back",
+        ref="DESIGN.md §5 C17"),
 })
 PENDING_REASON = "not claimed yet: model/theorems/correspondence for this property are still under construction (see DESIGN.md §5/§9)"
 
